@@ -15,6 +15,7 @@ from gemclus import data as D  # noqa: E402
 from gemclus.sparse._base_sparse import check_groups  # noqa: E402
 
 QUICK_SCALE = 15  # quick budgets below are multiplied by this
+THOROUGH_SCALE = 20  # thorough budgets below are multiplied by this (about ten minutes on 16 processes)
 
 RULE = ("a table (in this file) with one row per hyper-parameter of every estimator, GEMINI constructor and validated "
         "function: values the documentation lists (must be accepted: a max_iter=1 fit / the call succeeds) and values "
